@@ -1,1 +1,98 @@
-// placeholder
+//! Independent CQL binary protocol v4 codec, written from the protocol
+//! specification (native_protocol_v4.spec + the ScyllaDB extensions the driver
+//! negotiates). It deliberately shares NO code with scylla-cql: it is the
+//! oracle for request frames (C09), the generator of well-formed responses
+//! (C08) and the language the mock cluster speaks.
+
+pub mod prim;
+pub mod frame;
+pub mod request;
+pub mod response;
+
+pub use frame::{FrameHeader, Opcode};
+pub use prim::{Reader, WireError, Writer};
+
+#[cfg(test)]
+mod tests {}
+
+/// Self-test run by checks before they trust this codec: round-trips its own
+/// frames and decodes byte vectors pinned from the protocol spec examples.
+pub fn self_test() -> Result<(), String> {
+    use request::*;
+    use response::*;
+    // primitives
+    let mut w = Writer::new();
+    w.string("héllo");
+    w.long_string("x");
+    w.bytes_opt(None);
+    w.bytes_opt(Some(&[1, 2, 3]));
+    w.short_bytes(&[9]);
+    w.int(-2);
+    w.long(i64::MIN);
+    w.short(65535);
+    let buf = w.into_inner();
+    let mut r = Reader::new(&buf);
+    let ok = r.string().map_err(|e| e.0)? == "héllo"
+        && r.long_string().map_err(|e| e.0)? == "x"
+        && r.bytes_opt().map_err(|e| e.0)?.is_none()
+        && r.bytes_opt().map_err(|e| e.0)? == Some(vec![1, 2, 3])
+        && r.short_bytes().map_err(|e| e.0)? == vec![9]
+        && r.int().map_err(|e| e.0)? == -2
+        && r.long().map_err(|e| e.0)? == i64::MIN
+        && r.short().map_err(|e| e.0)? == 65535
+        && r.remaining() == 0;
+    if !ok {
+        return Err("primitive round trip failed".into());
+    }
+    // a QUERY body written by hand per the spec:
+    // <long string "SELECT 1"> <consistency ONE=0x0001> <flags 0x04|0x20> <page_size 100> <timestamp 7>
+    let mut body = vec![0, 0, 0, 8];
+    body.extend_from_slice(b"SELECT 1");
+    body.extend_from_slice(&[0, 1, 0x24, 0, 0, 0, 100, 0, 0, 0, 0, 0, 0, 0, 7]);
+    match parse_request(Opcode::Query as u8, &body, &Extensions::default()) {
+        Ok(Request::Query { query, params }) => {
+            if query != "SELECT 1"
+                || params.consistency != 1
+                || params.page_size != Some(100)
+                || params.timestamp != Some(7)
+                || params.values.is_some()
+                || params.skip_metadata
+            {
+                return Err(format!("hand-written QUERY decoded wrongly: {params:?}"));
+            }
+        }
+        other => return Err(format!("hand-written QUERY not decoded: {other:?}")),
+    }
+    // response round trip through our own reader of the rows result
+    let meta = ResultMetadata {
+        columns: vec![
+            ColSpec::new("ks", "t", "a", ColType::Int),
+            ColSpec::new("ks", "t", "b", ColType::List(Box::new(ColType::Text))),
+        ],
+        paging_state: Some(vec![1, 2]),
+        no_metadata: false,
+        global_spec: true,
+        new_metadata_id: None,
+    };
+    let resp = Response::Result(ResultBody::Rows {
+        metadata: meta,
+        rows: vec![vec![Some(vec![0, 0, 0, 5]), None]],
+    });
+    let body = resp.encode_body();
+    let want_prefix = [0u8, 0, 0, 2, 0, 0, 0, 3, 0, 0, 0, 2, 0, 0, 0, 2, 1, 2, 0, 2, b'k', b's', 0, 1, b't'];
+    if body.len() < want_prefix.len() || body[..want_prefix.len()] != want_prefix {
+        return Err(format!("rows result prefix differs from the spec layout: {:?}", &body[..want_prefix.len().min(body.len())]));
+    }
+    // header
+    let h = FrameHeader {
+        version: 0x84,
+        flags: 0,
+        stream: 258,
+        opcode: Opcode::Result as u8,
+        length: 5,
+    };
+    if h.encode() != [0x84, 0, 1, 2, 8, 0, 0, 0, 5] {
+        return Err("header layout".into());
+    }
+    Ok(())
+}
